@@ -38,8 +38,8 @@ var substTable = map[string][]string{
 	// "net/ipv4/multicast_linux.go":  {"syscall"},
 	// "multicast/peer.go":            {"syscall", "net"},
 	// "multicast/util.go":            {"net"},
-	// "bytes/mirrored_buffer.go":     {"syscall", "os"},
-	// "bytes/util_linux.go":          {"syscall", "os"},
+	"bytes/mirrored_buffer.go":     {"syscall", "os"},
+	"bytes/util_linux.go":          {"syscall"},
 	"codec/websocket/stream.go":    {"sync"},
 	"codec/websocket/util.go":      {"crypto/rand"},
 	// "codec/websocket/frame.go":     {"sync"},
